@@ -128,6 +128,9 @@ struct PkgAbs {
 }
 
 struct WorldAbs {
+  /// packages whose dependency set in the multi-package tracer run differs from the set found when
+  /// the package is traced alone
+  dep_notes: Vec<String>,
   pkgs: Vec<PkgAbs>,
   top: Vec<String>,
   hashes: Vec<(String, String)>, // spec -> text
@@ -138,7 +141,7 @@ struct WorldAbs {
 /// abstraction of one world state from the cache-less real run + the tracer hook
 fn abstract_world(world: &FcWorld, run: &FcRun, obs: &Observed) -> WorldAbs {
   let graph = &run.graph;
-  let mut wa = WorldAbs { pkgs: vec![], top: vec![], hashes: vec![], js: vec![], first: !world.workspace_fast_check };
+  let mut wa = WorldAbs { dep_notes: vec![], pkgs: vec![], top: vec![], hashes: vec![], js: vec![], first: !world.workspace_fast_check };
   for m in graph.modules() {
     if let Some(src) = m.source() {
       wa.hashes.push((m.specifier().to_string(), src.to_string()));
@@ -212,8 +215,29 @@ fn abstract_world(world: &FcWorld, run: &FcRun, obs: &Observed) -> WorldAbs {
         modules.push((spec, 0, vec![], out));
       }
     }
-    let deps = p["dependencies"].as_array().unwrap().iter().map(|d| d.as_str().unwrap().to_string()).collect();
-    wa.pkgs.push(PkgAbs { nv, key, entry, modules, deps });
+    // The packages this package's traced public API references.  NOT taken from the multi-package
+    // run (where what is recorded for one package may depend on what was met earlier through
+    // another): the tracer is run once more with this package as the only pending one.
+    let combined: BTreeSet<String> = p["dependencies"].as_array().unwrap().iter().map(|d| d.as_str().unwrap().to_string()).collect();
+    let alone = deno_graph::fast_check::verif_public_ranges(
+      None,
+      &provider,
+      graph,
+      &deno_graph::symbols::RootSymbol::new(graph, &run.analyzer),
+      &world.workspace_members,
+      VecDeque::from([nv_parsed.clone()]),
+    );
+    let deps: BTreeSet<String> = alone
+      .as_array()
+      .unwrap()
+      .iter()
+      .filter(|q| q["nv"].as_str() == Some(nv.as_str()))
+      .flat_map(|q| q["dependencies"].as_array().unwrap().iter().map(|d| d.as_str().unwrap().to_string()).collect::<Vec<_>>())
+      .collect();
+    if deps != combined {
+      wa.dep_notes.push(format!("{}: traced alone references {:?}, in the multi-package run {:?}", nv, deps, combined));
+    }
+    wa.pkgs.push(PkgAbs { nv, key, entry, modules, deps: deps.into_iter().collect() });
   }
   wa
 }
@@ -332,7 +356,7 @@ fn traffic_sx(t: &mut Tables, log: &[CacheEvent]) -> Sx {
 // ------------------------------------------------------------------ worlds and edits
 
 /// the F-C12b shape: a diagnostic of an early module caused by a trace that starts in a later one
-fn retrace_world(rng: &mut Rng) -> (FcWorld, GenInfo, String) {
+fn retrace_world(rng: &mut Rng) -> (FcWorld, GenInfo, Forced) {
   let mut w = FcWorld { root: "file:///mod.ts".into(), ..Default::default() };
   w.add("file:///mod.ts", "import \"jsr:@s/p0@1\";\n");
   w.add("https://jsr.io/@s/p0/meta.json", "{\"versions\": { \"1.0.0\": {} } }");
@@ -349,7 +373,81 @@ fn retrace_world(rng: &mut Rng) -> (FcWorld, GenInfo, String) {
     pkgs: vec![GenPkg { name: "@s/p0".into(), version: "1.0.0".into(), base: base.into(), exports: vec![(".".into(), "./mod.ts".into())], modules: vec!["mod.ts".into(), "m1.ts".into(), "m2.ts".into()], failing: true }],
     kinds: Default::default(),
   };
-  (w, info, format!("{}m2.ts", base))
+  (w, info, (format!("{}m2.ts", base), "export type X = string;\n".into(), "retrace: the later module stops requesting the failing member".into()))
+}
+
+/// DIAMONDS: two or three packages whose public API references a common package D (D optionally
+/// top-level itself, optionally depending on a further package).  The prescribed edit makes D
+/// reachable through fewer referrers: one referrer stops using D, or the root stops importing a
+/// referrer or D.  Returns None as the edit when an ordinary random edit is to be used.
+fn diamond_world(rng: &mut Rng) -> (FcWorld, GenInfo, Option<Forced>) {
+  let n = rng.range(3, 4);
+  let d = rng.below(n);
+  let chain = n == 4 && rng.chance(60); // D depends on E
+  let mut idx: Vec<usize> = (0..n).filter(|i| *i != d).collect();
+  let e = if chain { Some(idx.remove(rng.below(idx.len()))) } else { None };
+  let referrers = idx;
+  let mut w = FcWorld { root: "file:///mod.ts".into(), ..Default::default() };
+  let base = |i: usize| format!("https://jsr.io/@s/p{}/1.0.0/", i);
+  let mut pkgs = vec![];
+  for i in 0..n {
+    w.add(&format!("https://jsr.io/@s/p{}/meta.json", i), "{\"versions\": { \"1.0.0\": {} } }");
+    w.add(&format!("https://jsr.io/@s/p{}/1.0.0_meta.json", i), "{ \"exports\": { \".\": \"./mod.ts\" } }");
+    pkgs.push(GenPkg { name: format!("@s/p{}", i), version: "1.0.0".into(), base: base(i), exports: vec![(".".into(), "./mod.ts".into())], modules: vec!["mod.ts".into()], failing: false });
+  }
+  let d_text = match e {
+    Some(e) => format!("import type {{ ET }} from \"jsr:@s/p{}@1\";\nexport type DT = string | ET;\nexport class DC {{ v: DT = null as any; }}\n", e),
+    None => "export type DT = string | number;\nexport class DC { v: DT = null as any; }\n".to_string(),
+  };
+  w.add(&format!("{}mod.ts", base(d)), &d_text);
+  if let Some(e) = e {
+    w.add(&format!("{}mod.ts", base(e)), "export type ET = boolean;\nexport interface EI { e: ET; }\n");
+  }
+  let without_d = |r: usize| format!("export interface R{}I {{ own: string; }}\n", r);
+  for r in &referrers {
+    let r = *r;
+    let uses = match rng.below(5) {
+      0 => format!("import type {{ DT }} from \"jsr:@s/p{}@1\";\nexport interface R{}I {{ d: DT; own: string; }}\n", d, r),
+      1 => format!("export interface R{}I {{ d: import(\"jsr:@s/p{}@1\").DT; own: string; }}\n", r, d),
+      2 => format!("export {{ DC as Re{} }} from \"jsr:@s/p{}@1\";\nexport interface R{}I {{ own: string; }}\n", r, d, r),
+      3 => format!("import {{ DC }} from \"jsr:@s/p{}@1\";\nexport class R{}C extends DC {{ own: string = \"\"; }}\nexport interface R{}I {{ own: string; }}\n", d, r, r),
+      _ => {
+        // through an inner module
+        w.add(&format!("{}inner.ts", base(r)), &format!("import type {{ DT }} from \"jsr:@s/p{}@1\";\nexport type Inner{} = DT[];\n", d, r));
+        format!("import type {{ Inner{} }} from \"./inner.ts\";\nexport interface R{}I {{ d: Inner{}; own: string; }}\n", r, r, r)
+      }
+    };
+    let bad = if rng.chance(12) { "export function bad() { return Math.random(); }\n" } else { "" };
+    w.add(&format!("{}mod.ts", base(r)), &format!("{}{}", uses, bad));
+  }
+  let d_top = rng.chance(40);
+  let mut tops: Vec<usize> = referrers.clone();
+  if d_top {
+    tops.push(d);
+  }
+  if let (Some(e), true) = (e, rng.chance(20)) {
+    tops.push(e);
+  }
+  tops.sort();
+  let root_of = |tops: &[usize]| tops.iter().map(|i| format!("import \"jsr:@s/p{}@1\";\n", i)).collect::<String>();
+  w.add("file:///mod.ts", &root_of(&tops));
+  let forced = match rng.below(10) {
+    0..=3 => {
+      let r = *rng.pick(&referrers);
+      Some((format!("{}mod.ts", base(r)), without_d(r), format!("diamond: referrer p{} stops using the shared dependency p{}", r, d)))
+    }
+    4..=6 => {
+      let r = *rng.pick(&referrers);
+      let t: Vec<usize> = tops.iter().cloned().filter(|x| *x != r).collect();
+      Some(("file:///mod.ts".to_string(), root_of(&t), format!("diamond: root stops importing referrer p{}", r)))
+    }
+    7..=8 if d_top => {
+      let t: Vec<usize> = tops.iter().cloned().filter(|x| *x != d).collect();
+      Some(("file:///mod.ts".to_string(), root_of(&t), format!("diamond: root stops importing the shared dependency p{}", d)))
+    }
+    _ => None,
+  };
+  (w, GenInfo { pkgs, kinds: Default::default() }, forced)
 }
 
 /// the F-C12c shape: p0 re-exports * from p1's entrypoint, which re-exports * from a module with a
@@ -380,12 +478,40 @@ fn xstar_world(rng: &mut Rng) -> (FcWorld, GenInfo) {
   (w, info)
 }
 
-fn edit_world(rng: &mut Rng, world: &FcWorld, info: &GenInfo, v1: &Observed, forced: Option<&str>) -> (FcWorld, String) {
+/// a prescribed edit: (url, new text, label)
+type Forced = (String, String, String);
+
+fn drop_import_line(root_text: &str, rng: &mut Rng) -> Option<String> {
+  let lines: Vec<&str> = root_text.lines().filter(|l| !l.trim().is_empty()).collect();
+  let pkg_lines: BTreeSet<String> = lines.iter().filter_map(|l| l.split("jsr:").nth(1)).map(|r| r.split(['@', '"', '/']).take(3).collect::<Vec<_>>().join("/")).collect();
+  if pkg_lines.len() < 2 {
+    return None;
+  }
+  // drop every import of one package (all its entrypoints)
+  let victim = rng.pick(&pkg_lines.iter().cloned().collect::<Vec<_>>()).clone();
+  let kept: Vec<&str> = lines
+    .iter()
+    .filter(|l| l.split("jsr:").nth(1).map(|r| r.split(['@', '"', '/']).take(3).collect::<Vec<_>>().join("/")) != Some(victim.clone()))
+    .cloned()
+    .collect();
+  Some(format!("{}\n", kept.join("\n")))
+}
+
+fn edit_world(rng: &mut Rng, world: &FcWorld, info: &GenInfo, v1: &Observed, forced: Option<&Forced>) -> (FcWorld, String) {
   let mut w = world.clone();
-  if let Some(url) = forced {
-    // stop asking for the member that caused the diagnostic
-    w.add(url, "export type X = string;\n");
-    return (w, "retrace: the later module stops requesting the failing member".into());
+  if let Some((url, text, label)) = forced {
+    w.add(url, text);
+    return (w, label.clone());
+  }
+  // (not for workspaces: every member handed to workspace fast check is expected to be in the graph;
+  // a member that is not makes ModuleGraph::build_fast_check_type_graph panic at its
+  // `module_slots.get_mut(..).unwrap()` - an input outside the driver's contract, noted in the report)
+  if !world.workspace_fast_check && rng.chance(12) {
+    // the root stops importing one package: its dependencies are then reached through others only
+    if let Some(t) = drop_import_line(&world.files[&world.root].0, rng) {
+      w.add(&world.root.clone(), &t);
+      return (w, "root stops importing a package".into());
+    }
   }
   let pkg_files: Vec<String> =
     world.files.keys().filter(|k| (k.starts_with("https://jsr.io/") || k.starts_with("file:///ws/")) && !k.ends_with("meta.json")).cloned().collect();
@@ -429,7 +555,7 @@ fn edit_world(rng: &mut Rng, world: &FcWorld, info: &GenInfo, v1: &Observed, for
   (w, format!("{} ({})", what, target))
 }
 
-fn history_case(name: String, world1: FcWorld, info: GenInfo, forced_edit: Option<String>, rng: &mut Rng, mut dist: Vec<(String, u64)>) -> Case {
+fn history_case(name: String, world1: FcWorld, info: GenInfo, forced_edit: Option<Forced>, rng: &mut Rng, mut dist: Vec<(String, u64)>) -> Case {
   let mut t = Tables::default();
   let mut direct = vec![];
   // --- v1, no cache, five times
@@ -441,7 +567,16 @@ fn history_case(name: String, world1: FcWorld, info: GenInfo, forced_edit: Optio
       direct.push(format!("repeated run {} of the same sources gave different fast-check output", i + 2));
     }
   }
-  let (world2, edit) = edit_world(rng, &world1, &info, &o1, forced_edit.as_deref());
+  let (world2, edit) = edit_world(rng, &world1, &info, &o1, forced_edit.as_ref());
+  if std::env::var("DGVERIF_TRACE").is_ok() {
+    eprintln!("history {} edit {}", name, edit);
+    for (k, v) in &world1.files {
+      eprintln!("# {}\n{}", k, v.0);
+    }
+    for (k, v) in world2.files.iter().filter(|(k, v)| world1.files.get(*k).map(|x| &x.0) != Some(&v.0)) {
+      eprintln!("# EDITED {}\n{}", k, v.0);
+    }
+  }
   let r2 = run_fast_check(&world2, None);
   let o2 = observe(&r2);
   let wa1 = abstract_world(&world1, &r1, &o1);
@@ -486,7 +621,20 @@ fn history_case(name: String, world1: FcWorld, info: GenInfo, forced_edit: Optio
   let mut n_sets = 0u64;
   let mut dep_mismatch = vec![];
   let mut differs = vec![];
+  let trace = std::env::var("DGVERIF_TRACE").is_ok();
+  if trace {
+    eprintln!("history {} edit {}", name, edit);
+    for (k, v) in &world1.files {
+      eprintln!("# {}\n{}", k, v.0);
+    }
+    for (k, v) in world2.files.iter().filter(|(k, v)| world1.files.get(*k).map(|x| &x.0) != Some(&v.0)) {
+      eprintln!("# EDITED {}\n{}", k, v.0);
+    }
+  }
   for (si, (wi, use_cache)) in plan.iter().enumerate() {
+    if trace {
+      eprintln!("step {} world {} cache {}", si, wi, use_cache);
+    }
     cache.log.borrow_mut().clear();
     let o = if *use_cache {
       observe(&run_fast_check(worlds[*wi], Some(&cache)))
@@ -544,6 +692,25 @@ fn history_case(name: String, world1: FcWorld, info: GenInfo, forced_edit: Optio
   let failing1 = o1.slots.values().filter(|s| matches!(s, Slot::Error(_))).count();
   let failing2 = o2.slots.values().filter(|s| matches!(s, Slot::Error(_))).count();
   dist.push(("histories".into(), 1));
+  // diamonds: a package referenced by the public API of >= 2 others (or by one and top-level)
+  for wa in [&wa1, &wa2] {
+    let mut refs: BTreeMap<&String, usize> = BTreeMap::new();
+    for p in &wa.pkgs {
+      for d in &p.deps {
+        *refs.entry(d).or_insert(0) += 1;
+      }
+    }
+    if refs.iter().any(|(d, n)| *n >= 2 || wa.top.contains(*d)) {
+      dist.push(("world_states_with_shared_dependency".into(), 1));
+    }
+    if wa.pkgs.iter().any(|p| !p.deps.is_empty()) {
+      dist.push(("world_states_with_package_dependencies".into(), 1));
+    }
+  }
+  let dep_notes: Vec<String> = wa1.dep_notes.iter().chain(wa2.dep_notes.iter()).cloned().collect();
+  if !dep_notes.is_empty() {
+    dist.push(("dependencies_differ_alone_vs_together".into(), 1));
+  }
   dist.push(("steps".into(), plan.len() as u64));
   dist.push(("cache_hits".into(), n_hits));
   dist.push(("cache_sets".into(), n_sets));
@@ -561,7 +728,7 @@ fn history_case(name: String, world1: FcWorld, info: GenInfo, forced_edit: Optio
   Case {
     input: Sx::L(vec![Sx::A(20), Sx::L(vec![w1_sx, w2_sx]), Sx::L(steps_sx)]),
     obs: Sx::L(obs_steps),
-    meta: json!({"name": name, "edit": edit, "cached_differs_from_cacheless": differs, "dependency_key_mismatches": dep_mismatch.iter().take(4).collect::<Vec<_>>(),
+    meta: json!({"name": name, "edit": edit, "package_dependencies_alone_vs_together": dep_notes, "cached_differs_from_cacheless": differs, "dependency_key_mismatches": dep_mismatch.iter().take(4).collect::<Vec<_>>(),
       "packages": info.pkgs.iter().map(|p| json!({"name": p.name, "modules": p.modules, "exports": p.exports, "failing": p.failing})).collect::<Vec<_>>(),
       "v1": world1.files.iter().filter(|(k, _)| !k.ends_with("meta.json")).map(|(k, v)| (k.clone(), v.0.clone())).collect::<BTreeMap<_, _>>(),
       "edited": world2.files.iter().filter(|(k, v)| world1.files.get(*k).map(|x| &x.0) != Some(&v.0)).map(|(k, v)| (k.clone(), v.0.clone())).collect::<BTreeMap<_, _>>()}),
@@ -587,6 +754,8 @@ fn relational_case(name: String, world1: FcWorld, info: GenInfo, rng: &mut Rng, 
   let (world2, edit) = edit_world(rng, &world1, &info, &o1, None);
   let r2 = run_fast_check(&world2, None);
   let o2 = observe(&r2);
+  // the class is a property of the HISTORY: an entry written while the sources were in the class is
+  // replayed later, when they may no longer be
   let class = [cross_package_star_default(&r1.graph), cross_package_star_default(&r2.graph)];
   let mut universe: BTreeSet<String> = BTreeSet::new();
   for o in [&o1, &o2] {
@@ -607,7 +776,7 @@ fn relational_case(name: String, world1: FcWorld, info: GenInfo, rng: &mut Rng, 
     if a != b {
       differs.push(json!({"step": si, "modules": a.iter().filter(|(k, v)| b.get(*k) != Some(*v)).map(|(k, _)| k).collect::<Vec<_>>()}));
     }
-    steps.push(Sx::L(vec![Sx::b(class[*wi]), slots_sx(&mut t, &universe, &o.slots, true), slots_sx(&mut t, &universe, &cold[*wi].slots, true)]));
+    steps.push(Sx::L(vec![Sx::b(class[0] || class[1]), slots_sx(&mut t, &universe, &o.slots, true), slots_sx(&mut t, &universe, &cold[*wi].slots, true)]));
     obs.push(Sx::L(vec![Sx::judge(true)]));
   }
   dist.push(("relational_histories".into(), 1));
@@ -648,6 +817,9 @@ pub fn run(cfg: &RunCfg) {
     } else if rng.chance(12) {
       let (w, info, forced) = retrace_world(&mut rng);
       history_case(format!("retrace-{}", k), w, info, Some(forced), &mut rng, vec![("retrace_worlds".into(), 1)])
+    } else if rng.chance(20) {
+      let (w, info, forced) = diamond_world(&mut rng);
+      history_case(format!("diamond-{}", k), w, info, forced, &mut rng, vec![("diamond_worlds".into(), 1)])
     } else {
       let workspace = rng.chance(25);
       let (mut world, info) = gen_world(&mut rng, &GenCfg { max_pkgs: 4, fail_pct: if workspace { 60 } else { 35 }, cross_pkg_star: false, workspace });
